@@ -72,6 +72,9 @@ TraceNext ==
              /\ Chk(ImplOf(e), "I", e, "step")
      \* no call makes the commit log panic, and a log that was closed can be opened again
      /\ Chk(~e.crash, "P", e, "C01_NoCrash")
+     \* every call returns: a call that keeps burning CPU inside the commit log without returning
+     \* (judged by the CPU time of its own thread, never by wall-clock time) is recorded with hang = TRUE
+     /\ Chk(~e.hang, "P", e, "C01_NoHang")
      /\ Chk(C01_Ordered', "P", e, "C01_Ordered")
      /\ Chk(C01_Dense', "P", e, "C01_Dense")
      /\ Chk(TypeOK', "I", e, "TypeOK")
